@@ -63,6 +63,7 @@ class Server:
         p.registerChecker(db)
         self.factory = ftp.FTPFactory(p)
         self.factory.timeOut = None
+        self.data_errors = {}      # exception classes that escaped from data-connection callbacks (informational)
 
 
 class Session:
@@ -77,6 +78,8 @@ class Session:
         self.tr = StringTransport(hostAddress=IPv4Address("TCP", "127.0.0.1", 21), peerAddress=IPv4Address("TCP", "127.0.0.1", 5000))
         self.ev = []
         self.lines = []
+        self.data_errors = server.data_errors
+        self.dead = False
         with A.AUDIT.record() as acc:
             self.proto.makeConnection(self.tr)
             A.settle(server.reactor)
@@ -120,18 +123,25 @@ class Session:
             dout = b""
             dtp = self.ftp.dtpInstance if self.ftp is not None else None
             if verb in DATA_VERBS and dtp is not None and dtp.transport is not None:
-                k = 0
-                while dtp.transport.producer is not None and k < 200:
-                    dtp.transport.producer.resumeProducing()
-                    k += 1
-                if verb == "STOR":
-                    try:
+                # An exception escaping from the data connection's producer / dataReceived is what a reactor would
+                # log before dropping that connection (seen: ASCIIConsumerWrapper.write raising TypeError for RETR
+                # after TYPE A; DTP.dataReceived with no consumer) -- the driver drops the connection as well.
+                try:
+                    k = 0
+                    while dtp.transport.producer is not None and k < 200:
+                        dtp.transport.producer.resumeProducing()
+                        k += 1
+                    if verb == "STOR":
                         dtp.dataReceived(data if data is not None else b"stored-by-client")
-                    except Exception:
-                        pass          # a reactor would log it and drop the data connection, which is what follows
+                except Exception as e:
+                    self.data_errors[type(e).__name__] = self.data_errors.get(type(e).__name__, 0) + 1
+                    self.dead = True      # the command never completes; a client would see the control connection hang
                 dout = dtp.transport.value()
-                dtp.connectionLost(Failure(ConnectionDone()))
-                A.settle(R)
+                try:
+                    dtp.connectionLost(Failure(ConnectionDone()))
+                    A.settle(R)
+                except Exception as e:
+                    self.data_errors[type(e).__name__] = self.data_errors.get(type(e).__name__, 0) + 1
             acc = list(acc)
         out = self.tr.value()
         self.tr.clear()
@@ -173,6 +183,8 @@ def run_session(server, anon, lines):
     ns.build()
     s = Session(server, anon)
     for ln in lines:
+        if s.dead:
+            break
         s.cmd(ln)
     s.close()
     return {"cfg": {"root": ns.comps(ns.root), "cwd": ns.comps(os.getcwd())}, "anon": anon, "lines": list(lines), "ev": s.ev}
@@ -397,7 +409,7 @@ def run(ctx):
         ctx.note_trace(_slim(t), nontrivial=len(pats) >= 4)
     ctx.extra.update(commands=ncmd, exhaustive_commands=nex, exhaustive_path_len=L, random_sessions=nrand,
                      reply_codes={str(k): v for k, v in sorted(codes.items())}, access_kinds=kinds,
-                     interpreter_accesses_ignored=A.AUDIT.interp)
+                     interpreter_accesses_ignored=A.AUDIT.interp, data_connection_errors=dict(server.data_errors))
     for k in ("open", "list", "create", "rename", "delete"):
         if not kinds.get(k):
             raise MachineryError("vacuity: no %r access was ever recorded" % k)
